@@ -85,7 +85,9 @@ def unchanged(ctx, fp, what, who='operand'):
 
 
 def _scribble(T):
-    """overwrite every stored entry of an npc.Array in place"""
+    """in-place updates through an npc.Array: prefactor scaling, *=, element assignment of every stored entry"""
+    T.iscale_prefactor(3.)
+    T *= 2.
     for blk in T._data:
         blk[...] = 7
 
@@ -184,8 +186,18 @@ def single_case(ctx, **p):
     elif r == 'overlap(self)':
         res = psi.overlap(psi)
     elif r == 'get_theta':
+        # every site (stored forms A, B, Th, ...), n = 1, 2, default exponents and the exponents of the stored form of the site
+        # (then nothing has to be rescaled and the result must still be independent data)
         n = 1 + ctx.choice('n', 2)
-        res = psi.get_theta(0, n)
+        starts = list(range(L - n + 1)) if sm.bc != 'infinite' else list(range(L))
+        i = starts[ctx.choice('i', len(starts))]
+        if ctx.choice('exponents', 2) == 0:
+            res = psi.get_theta(i, n)
+        else:
+            fL = psi.form[i][0]
+            fR = psi.form[(i + n - 1) % L][1]
+            res = psi.get_theta(i, n, formL=fL, formR=fR)
+        ctx.prove(res is not psi._B[i % L] and all(x is not y for x in res._data for T in psi._B for y in T._data), f'{r}: the result holds its own data blocks')
         extra.append(res)
     elif r == 'get_B(form change)':
         i = ctx.choice('i', L)
